@@ -17,6 +17,12 @@ def run(v, tier, replay):
     r = lib.tlc("HopTubes", "MC_HopTubes_fin.cfg", timeout=900)
     v.add_tlc("MC_HopTubes_fin.cfg (FIN state machine: no dead state)", r)
     v.cov["design_finwait_orphan"] = r.violated
+    if thorough:
+        r = lib.tlc("HopTubesLive", "HopTubesLive.cfg", timeout=2400)
+        lib.tlc_must_pass(r, "HopTubesLive"); v.add_tlc("HopTubesLive.cfg (fair network, linger outlasts the losses: both ends reach closed)", r)
+        r = lib.tlc("HopTubesLive", "HopTubesLive_early.cfg", timeout=2400)
+        v.add_tlc("HopTubesLive_early.cfg (linger timer may fire before the FIN got through: the finWait2 orphan even on a fair network)", r)
+        v.cov["design_early_linger_orphan"] = r.kind
     sd = lib.scratch("vf-c16-")
     rc, so, se = lib.run([binp, "count"], timeout=60)
     total = int(so.strip())
